@@ -215,6 +215,9 @@ func checkC04(c *Ctx) {
 		}
 	}
 
+	// ---- O1b the root's prefix is the configured prefix, sanitized and otherwise unchanged -----------
+	c.checkRootPrefix("O1 root-prefix")
+
 	// ---- O3 overlay order -----------------------------------------------------------------------
 	if merge != nil {
 		c.checkMergeRight("O3 overlay-order", merge)
@@ -495,7 +498,24 @@ func (c *Ctx) checkTagsIngress(rule string, merge, copySan *ssa.Function) {
 			key := c.fnKey(fn)
 			call, isCall := canon(st.Val).(*ssa.Call)
 			okSrc := isCall && (staticCallee(call) == merge || staticCallee(call) == copySan)
-			c.check(okSrc, rule, key, st.Pos(), "scope.tags <- copyAndSanitizeMap / mergeRightTags", "a scope's tags are assigned from something other than copyAndSanitizeMap or mergeRightTags: the caller's map is retained (mutating it later changes the scope's tags) or tags bypass the sanitizer", c.describe(st))
+			if okSrc && staticCallee(call) == merge {
+				// the merge hands back one of its sides unchanged when the other is empty: each side
+				// must itself be private (a scope's own tags, or a fresh sanitized copy)
+				for _, a := range call.Call.Args {
+					av := canon(a)
+					if f, _ := loadedField(av); f == fTags {
+						continue
+					}
+					if ac, isAC := av.(*ssa.Call); isAC && staticCallee(ac) == copySan {
+						continue
+					}
+					if isNilConst(av) {
+						continue
+					}
+					okSrc = false
+				}
+			}
+			c.check(okSrc, rule, key, st.Pos(), "scope.tags <- copyAndSanitizeMap / mergeRightTags of private maps", "a scope's tags are assigned from something other than copyAndSanitizeMap(tags) or mergeRightTags(<scope's own tags>, copyAndSanitizeMap(tags)): the caller's map is retained (mutating it later changes the scope's tags) or tags bypass the sanitizer", c.describe(st))
 		})
 	}
 	c.floor(rule, n, 2)
@@ -731,4 +751,51 @@ func (c *Ctx) checkConstructorOnly(rule, short, typ, name string) {
 		c.ok(rule, typ+"."+name, f.Pos(), fmt.Sprintf("written only while the scope is under construction (%d store(s))", n))
 	}
 	_ = strings.Join
+}
+
+// checkRootPrefix: every store into scope.prefix outside the registry's child constructor is
+// Sanitizer.Name(<ScopeOptions.Prefix>) itself - not a trimmed, padded or otherwise edited form of
+// it (the delivered name is root prefix + separator + ..., for every prefix).
+func (c *Ctx) checkRootPrefix(rule string) {
+	fPrefix := c.field("", "scope", "prefix")
+	fOptPrefix := c.field("", "ScopeOptions", "Prefix")
+	nameM := c.ifaceMethod("", "Sanitizer", "Name")
+	sub := c.fn("", "scopeRegistry", "Subscope")
+	if fPrefix == nil || fOptPrefix == nil || nameM == nil {
+		c.missing(rule, "tally.scope.prefix / ScopeOptions.Prefix / Sanitizer.Name")
+		return
+	}
+	n := 0
+	for _, fn := range c.funcsOfPkg("") {
+		if fn == sub {
+			continue // child scopes: O2 inheritance
+		}
+		instrsOf(fn, func(in ssa.Instruction) {
+			st, ok := in.(*ssa.Store)
+			if !ok {
+				return
+			}
+			if f, _ := addrField(st.Addr); f != fPrefix {
+				return
+			}
+			n++
+			key := c.fnKey(fn)
+			c.sawFunc(key)
+			okV := false
+			why := "the root scope's prefix is not Sanitizer.Name(options.Prefix)"
+			if call, isCall := canon(st.Val).(*ssa.Call); isCall {
+				if _, m := ifaceCall(call); m == nameM && len(call.Call.Args) == 1 {
+					if f, _ := loadedField(canon(call.Call.Args[0])); f == fOptPrefix {
+						okV = true
+					} else {
+						why = "the root scope's prefix is the sanitized form of something other than options.Prefix itself (trimmed, padded or rewritten before sanitizing)"
+					}
+				} else {
+					why = "the root scope's prefix is post-processed after sanitizing (e.g. a separator is trimmed): names are no longer root prefix + separator + name for every prefix"
+				}
+			}
+			c.check(okV, rule, key, st.Pos(), "root prefix = Sanitizer.Name(options.Prefix), unchanged", why, c.describe(st))
+		})
+	}
+	c.floor(rule, n, 1)
 }
